@@ -198,6 +198,66 @@ def opVersionSelect (j : Json) : Except String Json := do
       | .invalidVersion => ("invalidVersion", "")
     pure (Json.mkObj [("norm", norm), ("refused", k), ("v", v)])
 
+def opSigBind (j : Json) : Except String Json := do
+  let ps ← (← j.getObjValAs? (Array Json) "sig").toList.mapM fun e => do
+    let a ← e.getArr?
+    if h : a.size = 3 then
+      let name ← a[0].getStr?
+      let kind ← match (← a[1].getStr?) with
+        | "pos" => pure ParamKind.pos | "pk" => pure ParamKind.pk | "var" => pure ParamKind.var
+        | "kw" => pure ParamKind.kw | "varkw" => pure ParamKind.varkw
+        | k => throw s!"bad param kind {k}"
+      pure ({ name := name, kind := kind, hasDefault := ← a[2].getBool? } : Param)
+    else throw "bad param"
+  let npos ← getNat j "npos"
+  let named ← strList j "named"
+  -- the callback is invoked as func(entity, *args, **kwargs): one more positional value
+  pure (Json.mkObj [("ok", bind ps (npos + 1) named)])
+
+def imapJson {α : Type} (f : α → Json) (m : List (Int × α)) : Json :=
+  Json.arr (m.map fun (k, v) => Json.arr #[Json.num (JsonNumber.fromInt k), f v]).toArray
+
+def opControllerSummary (j : Json) : Except String Json := do
+  let evs ← (← j.getObjValAs? (Array Json) "events").toList.mapM fun e => do
+    let a ← e.getArr?
+    let tag ← (a[0]?.getD Json.null).getStr?
+    let int (i : Nat) : Except String Int := intOfJson (a[i]?.getD Json.null)
+    match tag with
+    | "death" => pure (Event.death (← int 1) (← int 2) (← int 3))
+    | "achievement" => pure (Event.achievement (← int 1) (← int 2))
+    | "ribbon" => pure (Event.ribbon (← int 1) (← int 2))
+    | "shot" => pure (Event.shot (← int 1) (← int 2) (← int 3))
+    | "planeDeath" => pure (Event.planeDeath (← int 1) (← natOfJson (a[2]?.getD Json.null)))
+    | "battleEnd" => pure (Event.battleEnd (← int 1) (← int 2))
+    | "arena" => pure (Event.arena (← int 1))
+    | "player" => pure (Event.player (← int 1))
+    | "map" =>
+      match fromHex (← (a[1]?.getD Json.null).getStr?) with
+      | some b => pure (Event.map b)
+      | none => throw "bad map hex"
+    | "damageStat" =>
+      let es ← (← (a[1]?.getD Json.null).getArr?).toList.mapM fun x => do
+        let q ← x.getArr?
+        pure ((← intOfJson (q[0]?.getD Json.null)), (← intOfJson (q[1]?.getD Json.null)), (← (q[2]?.getD Json.null).getStr?))
+      pure (Event.damageStat es)
+    | "roster" =>
+      let row ← (← (a[2]?.getD Json.null).getArr?).toList.mapM fun x => do
+        let q ← x.getArr?
+        pure ((← (q[0]?.getD Json.null).getStr?), (← (q[1]?.getD Json.null).getStr?))
+      pure (Event.roster (← int 1) row)
+    | t => throw s!"unknown event {t}"
+  let s := summarize evs
+  let cnts := imapJson (fun (v : Int) => Json.num (JsonNumber.fromInt v))
+  pure (Json.mkObj [("ok", Json.mkObj [
+    ("deaths", Json.arr (s.deaths.map fun (a, b, c) => Json.arr #[Json.num (JsonNumber.fromInt a), Json.num (JsonNumber.fromInt b), Json.num (JsonNumber.fromInt c)]).toArray),
+    ("achievements", imapJson cnts s.achievements), ("ribbons", imapJson cnts s.ribbons), ("shots", imapJson cnts s.shots),
+    ("damage", imapJson (fun (v : String) => (v : Json)) s.damage), ("planes", cnts s.planes),
+    ("players", imapJson (fun (row : List (String × String)) => Json.arr (row.map fun (k, v) => Json.arr #[k, v]).toArray) s.players),
+    ("battleResult", match s.battleResult with | some (t, r) => Json.arr #[Json.num (JsonNumber.fromInt t), Json.num (JsonNumber.fromInt r)] | none => Json.null),
+    ("map", match s.map with | some m => (toHex m : Json) | none => Json.null),
+    ("arenaId", match s.arenaId with | some i => Json.num (JsonNumber.fromInt i) | none => Json.null),
+    ("playerId", match s.playerId with | some i => Json.num (JsonNumber.fromInt i) | none => Json.null)])])
+
 def opCodecDecode (st : State) (j : Json) : Except String Json := do
   let t ← getTy st j
   let h ← getNat j "h"
@@ -286,6 +346,8 @@ def dispatch (st : State) (op : String) (j : Json) : Except String (State × Jso
   | "frame.parse" => pureOp st (opFrameParse j)
   | "container.read" => pureOp st (opContainerRead j)
   | "version.select" => pureOp st (opVersionSelect j)
+  | "sig.bind" => pureOp st (opSigBind j)
+  | "controller.summary" => pureOp st (opControllerSummary j)
   | "codec.decode" => pureOp st (opCodecDecode st j)
   | "codec.decodeSeq" => pureOp st (opCodecDecodeSeq st j)
   | "codec.encode" => pureOp st (opCodecEncode st j)
